@@ -204,6 +204,7 @@ func remergeOverlay(u *Universe, base map[string][]byte) (map[string][]byte, []s
 			off := func(pos token.Pos) int { return u.Fset.Position(pos).Offset }
 			var texts []edit
 			var siteFiles []string
+			keepH := false
 			for si := range sites {
 				sites[si].direct = directParameters(info, h, sites[si])
 			}
@@ -216,6 +217,11 @@ func remergeOverlay(u *Universe, base map[string][]byte) (map[string][]byte, []s
 				if s.kind == "subexpr" {
 					txt, reason := exprText(u, info, h, hSrc, s, src(s.fileName))
 					if reason != "" {
+						if len(h.Body.List) == 1 {
+							// a single-expression helper: this call stays a call (the helper is kept), the others are substituted
+							keepH = true
+							continue
+						}
 						okAll, why = false, reason
 						break
 					}
@@ -255,12 +261,17 @@ func remergeOverlay(u *Universe, base map[string][]byte) (map[string][]byte, []s
 			for i, e := range texts {
 				edits[siteFiles[i]] = append(edits[siteFiles[i]], e)
 			}
-			// delete H (with its doc comment)
-			from := off(h.Pos())
-			if h.Doc != nil {
-				from = off(h.Doc.Pos())
+			if len(texts) == 0 {
+				continue
 			}
-			edits[hName] = append(edits[hName], edit{from, off(h.End()), ""})
+			// delete H (with its doc comment) unless a call of it remains
+			if !keepH {
+				from := off(h.Pos())
+				if h.Doc != nil {
+					from = off(h.Doc.Pos())
+				}
+				edits[hName] = append(edits[hName], edit{from, off(h.End()), ""})
+			}
 			var callers []string
 			for _, s := range sites {
 				n := "a function literal"
